@@ -388,6 +388,16 @@ class ArrowNull(ArrowDataType):
 
     type = pd.ArrowDtype(pyarrow.null())
 
+    def coerce(self, data_container: PandasObject) -> PandasObject:
+        coerced = super().coerce(data_container)
+        # pyarrow casts a dictionary-encoded (categorical) array to null by
+        # dropping its values
+        if (coerced.isna() & data_container.notna()).any(axis=None):
+            raise TypeError(
+                f"Data container cannot be coerced to type {self.type}"
+            )
+        return coerced
+
 
 @Engine.register_dtype(
     equivalents=[
